@@ -69,7 +69,7 @@ func RunProperty(p *Property, tier string, self string) int {
 
 	var mu sync.Mutex
 	var viols []foundViolation
-	total := WorkerStats{Skips: map[string]int64{}, Classes: map[string]int64{}, ClassSample: map[string]json.RawMessage{}}
+	total := WorkerStats{Skips: map[string]int64{}, Classes: map[string]int64{}, ClassSample: map[string]json.RawMessage{}, ViolByKey: map[string]int64{}}
 	infraErr := ""
 
 	var wg sync.WaitGroup
@@ -210,7 +210,7 @@ func RunProperty(p *Property, tier string, self string) int {
 	var keys []string
 	for _, v := range viols {
 		if _, ok := known[v.Outcome.FindingKey]; ok && v.Outcome.FindingKey != "" {
-			knownCount[v.Outcome.FindingKey]++
+			knownCount[v.Outcome.FindingKey] = int(total.ViolByKey[v.Outcome.FindingKey])
 			continue
 		}
 		k := v.Outcome.FindingKey
@@ -249,8 +249,8 @@ func RunProperty(p *Property, tier string, self string) int {
 			fmt.Printf("VIOLATION property=%s replay=%s\n", p.ID, path)
 			fmt.Printf("  key=%s case#%d: %s\n", k, v.Index, firstLine(v.Outcome.Violation))
 		}
-		if len(unknownByKey[k]) > n {
-			fmt.Printf("  (%d further violations with key %q)\n", len(unknownByKey[k])-n, k)
+		if total.ViolByKey[k] > int64(n) {
+			fmt.Printf("  (%d violations with key %q in total)\n", total.ViolByKey[k], k)
 		}
 	}
 	var kk []string
@@ -293,6 +293,7 @@ func RunProperty(p *Property, tier string, self string) int {
 		"class_samples":                 classSamples,
 		"workers":                       nw,
 		"known_finding_cases":           knownCount,
+		"violations_by_key":             total.ViolByKey,
 		"unconfirmed_violations":        unconfirmed,
 	}
 	if p.Bounds != nil {
@@ -315,8 +316,12 @@ func RunProperty(p *Property, tier string, self string) int {
 		"violations":  reported,
 	}
 	eb, _ := json.MarshalIndent(ev, "", " ")
-	os.MkdirAll(filepath.Join(verif, "evidence"), 0o755)
-	if err := os.WriteFile(filepath.Join(verif, "evidence", p.ID+".json"), eb, 0o644); err != nil {
+	evDir := filepath.Join(verif, "evidence")
+	if d := os.Getenv("VERIF_EVIDENCE_DIR"); d != "" {
+		evDir = d // used when checks are run against deliberately broken trees
+	}
+	os.MkdirAll(evDir, 0o755)
+	if err := os.WriteFile(filepath.Join(evDir, p.ID+".json"), eb, 0o644); err != nil {
 		fmt.Fprintln(os.Stderr, err)
 		return 2
 	}
@@ -356,6 +361,9 @@ func mergeStats(t, d *WorkerStats, first bool) {
 	}
 	for k, v := range d.Classes {
 		t.Classes[k] += v
+	}
+	for k, v := range d.ViolByKey {
+		t.ViolByKey[k] += v
 	}
 	for k, v := range d.ClassSample {
 		if _, ok := t.ClassSample[k]; !ok && len(t.ClassSample) < 16 {
